@@ -123,3 +123,33 @@ CHECKS['C20'] = dict(
          '(times[cps], sig[cps]) through one index term in the order peaks, troughs, rises, decays; no column outside the table\'s centring is read. '
          'Nothing about rendered artists or float rounding of the view selection is decided.',
     note='Trusted: matplotlib / neurodsp plot_time_series / plot_bursts render what they are given; limit_df / limit_signal as decided by C18.')
+
+CHECKS['C17'] = dict(
+    technique='schema conformance by symbolic normal-form equality with a reference (anchor table, interpolation wiring, branch merge, span mask) + ordered-store query on the anchor arrays + negative-coefficient slice-bound lint',
+    text='Decides the structural clauses only: the anchor table and overwrite order (midpoints -pi/2, +pi/2 first; then peaks 0, troughs +pi / -pi), the wiring of both branches into '
+         'np.interp over all sample times, the merge rule (+pi branch exactly where the -pi branch decreases), the span mask located by the first / last non-constant step and '
+         'sliced from the front (no negative-index wrap-around). Range, monotonicity between anchors and finiteness inside the span are value-level and not decided.',
+    note='Trusted: np.interp semantics (linear, constant outside the anchors); reference in sa/refspec/phase.py.')
+
+CHECKS['C01'] = dict(
+    technique='symbolic normal-form equality of the row assembly (shifted slices of one array => tiling), dictionary key-presence scenarios at an either/or callee precondition, package-wide call-signature binding, effect analysis for read-only writes',
+    text='Decides named structural necessary conditions, not the behaviour: (a) the three structural reasons for which the call would raise for every input are absent '
+         '(no write to a read-only pandas view in the pipeline, never both n_cycles and n_seconds to compute_filter_length in any key-presence scenario, all resolved '
+         'calls bind, including into installed neurodsp); (b) rows are assembled as offset-0 / offset-1 slices of one array so consecutive rows share their side extremum, '
+         'centre and midpoints are the ones between them under the fixed peak-first pairing, which callers cannot override; (c) midpoints come from the inclusive '
+         'flank window only, indices refer to the un-padded input and the boundary filter is strict on both sides. Existence of crossings, strict ordering and alternation '
+         'for arbitrary signals, and data-dependent exceptions are value-level and NOT decided.',
+    note='Trusted: neurodsp signatures as installed; C02/C03 reference loops for the extremum / midpoint search.')
+CHECKS['C02'] = dict(
+    technique='schema conformance by symbolic normal-form equality with reference scan loops (24 option scenarios) + provenance / polarity / sibling-symmetry / pad-agreement / boundary queries on the extracted terms',
+    text='find_extrema is shown to be an instance of the reference search for every first_extrema x pad x filter-option scenario; independently of loop structure the '
+         'arg-extrema operands are slices of the raw (padded) parameter and never of the filtered signal, peaks use argmax over rise..next decay and troughs argmin over '
+         'decay..next rise with the trough loop the mirror image of the peak loop, the offset removed equals the pad width (0 without padding), the boundary test is strict on both '
+         'sides on the original length, and the crossing rule of find_flank_zerox is pinned (<= / > tie convention). Correctness of the scan as an algorithm is only conformance.',
+    note='Trusted: np.argmax/argmin first-occurrence; neurodsp filter_signal / compute_filter_length; reference in sa/refspec/cyclepoints.py.')
+CHECKS['C03'] = dict(
+    technique='schema conformance by symbolic normal-form equality with reference midpoint code + window / level / inverted-flank comparator queries on the extracted terms and call trace',
+    text='_find_flank_midpoints and find_zerox equal the reference (counts and index bias from which extremum comes first; rises trough->peak, decays peak->trough); the window is '
+         'the inclusive [start, end] slice, every stored midpoint is start + an offset from that window only, the level is (first+last)/2 of the same window and flank, the '
+         'fallback comparator is > for a rise and < for a decay, and the crossing rule is pinned. That the stored sample is the median crossing for a concrete signal is numpy semantics, not decided.',
+    note='Trusted: np.median, np.sum, np.abs; reference in sa/refspec/cyclepoints.py.')
